@@ -696,3 +696,58 @@ func TestC12ShadowMacro(t *testing.T) {
 }
 
 func init() { reg("C12.shadowmacro", checkC12ShadowMacro) }
+
+// ---- the value of a macro call wherever it is written -------------------------------------------------------
+
+type C12CallPosCase struct {
+	Which int `json:"which"`
+}
+
+var c12CallPosSets = []struct {
+	main, want string
+}{
+	{"{{ ok(1) }}", "V1"},
+	{"{{ ok(1) ~ 'q' }}", "V1q"},
+	{"{{ 'p' ~ ok(2) ~ ok(3) }}", "pV2V3"},
+	{"{{ ok(1)|lower }}", "v1"},
+	{"{{ ok(1)|length }}", "2"},
+	{"{% set v = ok(4) %}[{{ v }}|{{ v }}]", "[V4|V4]"},
+	{"{% if ok(1) %}y{% else %}n{% endif %}{% if blank() %}y{% else %}n{% endif %}", "yn"},
+	{"{{ ok(1) == 'V1' ? 'same' : 'other' }}", "same"},
+	{"{{ [ok(1), ok(2)]|join('+') }}", "V1+V2"},
+	{"{% include 'show' with {'v': ok(5)} only %}", "(V5)"},
+	{"{{ ok(ok(1)) }}", "VV1"},
+	{"{% for i in [1, 2] %}{% set v = ok(i) %}{{ v|lower }}{% endfor %}", "v1v2"},
+	{"{% apply upper %}{{ ok('a') ~ 'b' }}{% endapply %}", "VAB"},
+	{"{% import 'lib' as l %}{{ l.ok(1) ~ l.ok(2) }}|{% set v = l.ok(3) %}{{ v }}", "V1V2|V3"},
+	{"{% from 'lib' import ok as k %}{{ k(1)|lower ~ k(2) }}", "v1V2"},
+	{"{{ _self.ok(1) ~ '!' }}", "V1!"},
+}
+
+// checkC12CallPos: a macro call has the text its body renders as its value, not only when it is
+// the whole of a print tag.
+func checkC12CallPos(c C12CallPosCase) error {
+	s := c12CallPosSets[c.Which%len(c12CallPosSets)]
+	const defs = "{% macro ok(a) %}V{{ a }}{% endmacro %}{% macro blank() %}{% endmacro %}"
+	tm := map[string]string{"main": defs + s.main, "lib": defs, "show": "({{ v }})"}
+	r := render(newEngine(tm), "main", nil)
+	if r.Failed() || r.Out != s.want {
+		return fmt.Errorf("macro ok(a) renders V{{ a }}: %s renders %v, want %s", q(s.main), r, q(s.want))
+	}
+	return nil
+}
+
+func TestC12CallPositions(t *testing.T) {
+	r := NewRec(t, "C12", "exhaustive: 16 templates in which a macro call (local, _self, import-as, alias) stands next to ~, under a filter, in a set, a condition, a comparison, a list, an include-with value, as the argument of another call or inside apply; expected text written out; all cases non-trivial")
+	defer r.Flush()
+	r.SetExhaustive()
+	for i := range c12CallPosSets {
+		c := C12CallPosCase{Which: i}
+		r.Case(fmt.Sprint(i), true, c12CallPosSets[i].main)
+		if err := checkC12CallPos(c); err != nil {
+			r.FailEnum(t, "C12.callpos", c, err)
+		}
+	}
+}
+
+func init() { reg("C12.callpos", checkC12CallPos) }
